@@ -32,9 +32,14 @@ class BartiqPrinter(StrPrinter):
         return self._print_over_sequence(expr, "prod_over")
 
     def _print_over_sequence(self, expr: Any, sequence: str) -> str:
-        function, symbols = expr.args
-        symbol_args_str = ", ".join(self._print(symbol) for symbol in symbols)
-        return f"{sequence}({self._print(function)}, {symbol_args_str})"
+        # A sum (product) over several indices, e.g. a parsed nested sum_over, is written as nested single-index ones;
+        # the first limit is the innermost one.
+        function, *limits = expr.args
+        result = self._print(function)
+        for symbols in limits:
+            symbol_args_str = ", ".join(self._print(symbol) for symbol in symbols)
+            result = f"{sequence}({result}, {symbol_args_str})"
+        return result
 
     def _print_Pi(self, expr: Any) -> str:
         return "PI"
